@@ -21,8 +21,8 @@ Ltac eval_closed k :=
 Ltac shapes :=
   intros k Hk;
   cbv [run layer map
-       ClgnMnist_layers ClgnCifar10_nbits1_layers ClgnCifar10_nbits3_layers ClgnCifar10_nbits5_layers
-       ClgnCifar10Res_nbits1_layers ClgnCifar10Res_nbits3_layers ClgnCifar10Res_nbits5_layers
+       ClgnMnist_layers ClgnCifar10_nbits1_layers ClgnCifar10_nbits2_layers ClgnCifar10_nbits3_layers ClgnCifar10_nbits4_layers ClgnCifar10_nbits5_layers
+       ClgnCifar10Res_nbits1_layers ClgnCifar10Res_nbits2_layers ClgnCifar10Res_nbits3_layers ClgnCifar10Res_nbits4_layers ClgnCifar10Res_nbits5_layers
        ClgnCifar10Tiny_layers ClgnCifar10Mini_layers DlgnMnist_layers DlgnCifar10_2_4_layers DlgnCifar10_5_5_layers
        Dlgn_generic_layers CNN_layers RandomlyConnectedNN_layers];
   eval_closed k;
@@ -36,6 +36,14 @@ Ltac shapes :=
 Lemma ClgnMnist_ok : forall k, 1 <= k -> run (ClgnMnist_layers k) (Sp 1 [28; 28]) (fun s => s = Fl 10).
 Proof. shapes. Qed.
 Lemma ClgnCifar10_1_ok : forall k, 1 <= k -> run (ClgnCifar10_nbits1_layers k) (Sp 3 [32; 32]) (fun s => s = Fl 10).
+Proof. shapes. Qed.
+Lemma ClgnCifar10_2_ok : forall k, 1 <= k -> run (ClgnCifar10_nbits2_layers k) (Sp 6 [32; 32]) (fun s => s = Fl 10).
+Proof. shapes. Qed.
+Lemma ClgnCifar10_4_ok : forall k, 1 <= k -> run (ClgnCifar10_nbits4_layers k) (Sp 12 [32; 32]) (fun s => s = Fl 10).
+Proof. shapes. Qed.
+Lemma ClgnCifar10Res_2_ok : forall k, 1 <= k -> run (ClgnCifar10Res_nbits2_layers k) (Sp 6 [32; 32]) (fun s => s = Fl 10).
+Proof. shapes. Qed.
+Lemma ClgnCifar10Res_4_ok : forall k, 1 <= k -> run (ClgnCifar10Res_nbits4_layers k) (Sp 12 [32; 32]) (fun s => s = Fl 10).
 Proof. shapes. Qed.
 Lemma ClgnCifar10_3_ok : forall k, 1 <= k -> run (ClgnCifar10_nbits3_layers k) (Sp 9 [32; 32]) (fun s => s = Fl 10).
 Proof. shapes. Qed.
@@ -70,3 +78,8 @@ Definition fixed_ok (m : list lspec * (Z * list Z)) : bool :=
   match run_b (fst m) (Some (Sp (fst (snd m)) (snd (snd m)))) with Some (Fl 10) => true | _ => false end.
 Lemma fixed_models_ok : forallb fixed_ok fixed_models = true /\ length fixed_models = 24%nat.
 Proof. split; vm_compute; reflexivity. Qed.
+
+(* the scales at which a comparison in a constructor (e.g. in_channels != out_channels of the residual block) could take the other
+   branch: the class is constructed concretely there and must be consistent too *)
+Lemma exceptional_models_ok : forallb fixed_ok exceptional_models = true.
+Proof. vm_compute. reflexivity. Qed.
